@@ -197,9 +197,18 @@ def http_fail(op, impl, conf):
     if path == b"/pub" and not 1 <= len(body) <= conf["maxMsg"]:
         return "http-pub-size", "/pub accepted a body of %d bytes (max-msg-size %d)" % (len(body), conf["maxMsg"])
     if path == b"/mpub" and len(body) > conf["maxBody"]:
-        if cl == -1 and b"binary=" in query:
-            return "mpub-chunked-size", "chunked binary /mpub accepted a body of %d bytes (max-body-size %d)" % (
-                len(body), conf["maxBody"])
+        if b"binary=" in query and b"binary=false" not in query and b"binary=0" not in query:
+            # binary: what counts is the batch that was decoded (trailing bytes are never read)
+            pos = 4
+            if len(body) >= 4:
+                for _ in range(max(struct.unpack(">i", body[:4])[0], 0)):
+                    if pos + 4 > len(body):
+                        break
+                    pos += 4 + max(struct.unpack(">i", body[pos:pos + 4])[0], 0)
+            if pos > conf["maxBody"]:
+                return "mpub-chunked-size", "binary /mpub (Content-Length %d) accepted a batch of %d bytes (max-body-size %d)" % (
+                    cl, pos, conf["maxBody"])
+            return None
         return "http-mpub-size", "/mpub accepted a body of %d bytes (max-body-size %d)" % (len(body), conf["maxBody"])
     return None
 
@@ -439,7 +448,7 @@ def run(ctx):
         "writes to the client succeed (write errors are I/O faults: E_*_FAILED / send errors are outside the model)",
         "no topic is exiting while a publish runs (E_PUB_FAILED/E_MPUB_FAILED/E_DPUB_FAILED are race-only)",
         "dpub_exact: max-req-timeout below 2^63-1 ns; req_clamp: 0 <= max-req-timeout <= 2^63-1 ns",
-        "mpub_consumed_partial replaces the false full statement mpub_total_le_body_limit (known finding F10)",
+        "F10 repaired (fixes/F10_mpub_body_limit.patch): mpub_total_le_body_limit is a full theorem of the patched tree",
     ]
     ctx.rule = ("correspondence: histories `reset, io…` on four in-process nsqd configurations (small limits S, "
                 "defaults D, tls-required T, compression+saturation Z); an io op is one connection's whole byte "
